@@ -245,7 +245,7 @@ func (e *env) warmUp() {
 
 type measure struct {
 	inuse, intx, xaconns, xaprepared, xaheld, fencetx, futures, goroutines, undo, undoMarkers int
-	unowned, xaUnowned                                                          int // physical connections no pool owns (AT + fence servers / XA servers)
+	unowned, xaUnowned                                                                        int // physical connections no pool owns (AT + fence servers / XA servers)
 }
 
 // pools lists every database/sql pool of the process: the handles the application holds and the inner
